@@ -14,7 +14,7 @@ RULE = ("integer images of 2-3 D with 1..64 grey levels x 4/13 directions x dist
         "histogram sums to the number of pixels considered, has one bin per rotation class, _lbp.map == extracted model for every "
         "code (P<=12 quick, <=16 thorough); Zernike magnitudes invariant under 90-degree rotation about the centre and intensity "
         "scaling (1e-9); moments == defining sum (exact, integers); surf.integral == extracted model == cumulative sums, all "
-        "layouts and dtypes. Non-trivial: image not constant")
+        "layouts and dtypes. Non-trivial: image not constant Added: haralick with preserve_haralick_bug, use_x_minus_y_variance, return_mean, return_mean_ptp; surf.integral with int64/uint64 accumulators and prefix sums beyond 2**53.")
 NOT_PROVED = ["Haralick formulas and Zernike moments are floating-point pipelines: compared with independent evaluations of the "
               "textbook definitions / checked as invariances on the implementation, not proved",
               "co-occurrence: counting, 180-degree and transposition symmetries are theorems about the counts (cooc_spec_rot180, "
